@@ -118,19 +118,24 @@ def flag_writers(analysis: Analysis, res: RuleResult) -> None:
                         if is_true:
                             continue
                         n_false += 1
-                        info = analysis.p.funcs.get(fn)
-                        is_last = info is not None and info.node.body and info.node.body[-1] is node
-                        ok = fn == "persistence:Persistence.save_sensors" and isinstance(val, ast.Constant) and val.value is False and is_last
-                        res.add("C14-R3", f"{fn} / {unparse(node)}", ok, common.where(analysis, mod, node), "the dirty flag is cleared only by save_sensors, as its last statement" if ok else "the dirty flag is cleared (or set to a computed value) outside save_sensors or before the save completed: a later save may be skipped although state changed")
+                        ok = common.owned_by(analysis, fn, {"persistence:Persistence.save_sensors"}) and isinstance(val, ast.Constant) and val.value is False
+                        res.add("C14-R3", f"{fn} / {unparse(node)}", ok, common.where(analysis, mod, node), "the dirty flag is cleared only by save_sensors (where on its paths is judged below)" if ok else "the dirty flag is cleared (or set to a computed value) outside save_sensors: a later save may be skipped although state changed")
     if n_false < 1:
         raise AnalysisError("C14-R3: no store clearing need_save found (anchor vanished)")
-    # last effect of save_sensors, and the early return tests only the flag
+    # where the flag is cleared on the paths of a save (once, before the state is read; set again when the save
+    # fails; untouched when the save is skipped) and that the early return tests only the flag
+    from . import c12, persist
+
     info = analysis.p.func("persistence:Persistence.save_sensors")
     body = info.node.body
     stmts = [s for s in body if not (isinstance(s, ast.Expr) and isinstance(s.value, ast.Constant))]
-    last = stmts[-1]
-    ok_last = isinstance(last, ast.Assign) and unparse(last.targets[0]).endswith(".need_save") and isinstance(last.value, ast.Constant) and last.value.value is False
-    res.add("C14-R3", "persistence:Persistence.save_sensors / clearing the flag is the last statement", ok_last, common.where(analysis, info, last), "flag cleared after every file operation of the save" if ok_last else f"last statement is `{unparse(last)[:60]}`")
+    sub = RuleResult(res.prop)
+    persist.check_dispatch_shape(analysis)
+    for summ in common.pmap(analysis, c12.save_worker, [(e, (analysis.versions[-1], "serial", "sync")) for e in persist.EXTS]):
+        c12.analyse_save_rows(sub, summ)
+    for o in sub.obs:
+        if any(t in o.construct for t in ("dirty flag", "marked unsaved", "a save is skipped only", "a lock taken by the save", "does not modify the live state", "directory tested for writability")):
+            res.add("C14-R3", o.construct, o.ok, o.where, o.detail, o.witness)
     first = stmts[0]
     ok_first = isinstance(first, ast.If) and unparse(first.test) in ("not self.need_save",) and all(isinstance(s, ast.Return) for s in first.body)
     res.add("C14-R3", "persistence:Persistence.save_sensors / the skip test reads only the dirty flag", ok_first, common.where(analysis, info, first), "`if not self.need_save: return`" if ok_first else f"first statement is `{unparse(first)[:60]}`")
